@@ -7,3 +7,9 @@ package rfmt
 const verifOn = false
 
 func verifPool(ev string, p *pp) {}
+
+func verifMode(p *pp, ev string, m0, o0 int) {}
+
+func verifArg(p *pp) func() { return nil }
+
+func verifNested(p, np *pp) {}
